@@ -32,6 +32,8 @@ def scenario(seed, snap, duration, thorough):
     async def main(loop):
         peer = session.Peer(loop, snap, latency=rng.choice([0.01, 0.03, 0.07]))
         cl = session.Client(peer)
+        # the client's handler really suspends on the events the RFERR / WCERR consumers raise (longer than the unhandled consumer's patience, sometimes)
+        cl.suspend = lambda ev: rng.choice([None, 0, 0.15, 0.55]) if ev in ("ERROR_RF_ERROR", "RUNNING_SPA_WATER_CARE_ERROR") else None
         tr = qtrace.Trace(lambda: cl.spa).install()
         times = []
         real_append = tr.log.append
@@ -54,7 +56,7 @@ def scenario(seed, snap, duration, thorough):
                     elif kind == "junk_verb":
                         d = [rng.choice([b"XXXXX", b"STAT", b"HELLO", b"<HELLO>1</HELLO>", b"WCSET"]) + bytes(rng.randrange(256) for _ in range(3))]
                     elif kind == "unsolicited":
-                        d = [frame(session.SPA_ID, session.CLIENT_ID, rng.choice([b"CHCUR\x0a\x21", b"SVERS\x00\x01\x02\x03\x00\x04\x05\x06", b"PACKS", b"APING\x00", b"WCGET\x01"]))]
+                        d = [frame(session.SPA_ID, session.CLIENT_ID, rng.choice([b"CHCUR\x0a\x21", b"SVERS\x00\x01\x02\x03\x00\x04\x05\x06", b"PACKS", b"APING\x00", b"WCGET\x01", b"RFERR", b"RFERR", b"WCERR\x01"]))]
                     elif kind == "misaddressed":
                         d = [frame(rng.choice([b"SPA99:99", session.SPA_ID]), b"IOS-somebody-else", b"STATP\x01\x00\x05\xff\xff")]
                     elif kind == "malformed":
